@@ -70,6 +70,11 @@ pub fn program(c: &Case) -> Program {
         body.push(ins("dex", Form::None, None));
         body.push(ins("bne", Form::Plain, Some(Expr::id(&lo))));
     }
+    if g.e.chance(1, 5) {
+        // never ends: an instruction that jumps to itself (a breakpoint on it has to stop the machine every time round)
+        body.push(Stmt::Label { name: "qspin".into(), block: None });
+        body.push(ins("jmp", Form::Plain, Some(Expr::id("qspin"))));
+    }
     body.push(ins("brk", Form::None, None));
     let subs = std::mem::take(&mut g.subs);
     for (sname, sbody) in subs {
@@ -166,6 +171,8 @@ pub struct Reference {
     /// lines of executed `jsr` instructions / of instructions executed inside a subroutine
     pub call_lines: Vec<usize>,
     pub sub_lines: Vec<usize>,
+    /// the program ends in an instruction that jumps to itself: the machine never stops by itself
+    pub spins: bool,
 }
 
 pub const STEP_BOUND: usize = 3_000_000;
@@ -212,7 +219,7 @@ pub fn reference(prog: &Program) -> Result<Reference, String> {
         }
         trace.push(rm.entry());
     }
-    let mut rf = Reference { text: r.text.clone(), trace, ended, mem0: mem, start: start as u16, sites, code_lines: lines.into_iter().collect(), call_lines: vec![], sub_lines: vec![] };
+    let mut rf = Reference { text: r.text.clone(), trace, ended, mem0: mem, start: start as u16, sites, code_lines: lines.into_iter().collect(), call_lines: vec![], sub_lines: vec![], spins: false };
     let (mut calls, mut subs) = (BTreeSet::new(), BTreeSet::new());
     let mut seen_pc = BTreeSet::new();
     for e in &rf.trace {
@@ -230,6 +237,7 @@ pub fn reference(prog: &Program) -> Result<Reference, String> {
     }
     rf.call_lines = calls.into_iter().collect();
     rf.sub_lines = subs.into_iter().collect();
+    rf.spins = !rf.ended && rf.trace.len() >= 2 && rf.trace[rf.trace.len() - 2].pc == rf.trace[rf.trace.len() - 1].pc && rf.trace[rf.trace.len() - 1].op == 0x4c;
     Ok(rf)
 }
 
@@ -368,10 +376,15 @@ pub fn prop(c: &Case, log: &mut CaseLog) -> Verdict {
             return Verdict::Discard(why);
         }
     };
-    if !rf.ended {
+    let spins = !rf.ended && rf.trace.len() >= 2 && {
+        let (a, b) = (rf.trace[rf.trace.len() - 2], rf.trace[rf.trace.len() - 1]);
+        a.pc == b.pc && a.op == 0x4c
+    };
+    if !rf.ended && !spins {
         log.label("discard:reference does not end");
         return Verdict::Discard("reference does not end".into());
     }
+    log.label_if(spins, "program-spins-forever");
     let mut s = match start_session(&rf.text) {
         Ok(s) => s,
         Err(e) => {
@@ -407,6 +420,12 @@ fn pick_lines(rf: &Reference, sels: &[u32]) -> BTreeSet<usize> {
     let mut out = BTreeSet::new();
     if rf.code_lines.is_empty() {
         return out;
+    }
+    if rf.spins && sels.first().map(|s| s & 4 != 0).unwrap_or(false) {
+        // the instruction that jumps to itself
+        if let Some(l) = rf.trace.last().and_then(|e| rf.line_of(e.pc)) {
+            out.insert(l);
+        }
     }
     for s in sels {
         // a quarter of the breakpoints on call instructions, a quarter inside subroutines
@@ -489,6 +508,9 @@ fn drive(c: &Case, rf: &Reference, s: &mut Session, tr: &mut Vec<String>, st: &m
                 let mut plan: Vec<(u32, u8)> = vec![];
                 if let Some(d) = pause_after_us {
                     plan.push((*d, 0));
+                } else if rf.spins {
+                    // a machine that never stops by itself is always paused
+                    plan.push((20_000, 0));
                 }
                 if let Some((d, _)) = bps_during {
                     plan.push((*d, 1));
@@ -576,6 +598,10 @@ fn drive(c: &Case, rf: &Reference, s: &mut Session, tr: &mut Vec<String>, st: &m
                     continue;
                 }
                 let from = idx;
+                if rf.spins && *kind == StepKind::StepOut && rf.trace[idx].depth == 0 {
+                    // (outside any subroutine stepOut runs to the end of the test, which never comes)
+                    continue;
+                }
                 let cmd = match kind {
                     StepKind::Next => "next",
                     StepKind::StepIn => "stepIn",
